@@ -14,6 +14,18 @@ COMMON = [
 ]
 
 K_PROPS = {
+    "C03": dict(assumptions=COMMON + KERNEL_ASSUMPTIONS + [
+                    "tiny-std/src/allocator/dlmalloc.rs is compiled from the repository's file inside a wrapper module (include!); debug-assertions are off in the harness profile (check_malloc_state walks all bins after every call), overflow checks stay on",
+                    "OS model: mmap serves two page-aligned 256 KiB arenas with exact bookkeeping, refuses anything else with ENOMEM; mremap may only shrink in place; one injected failure where stated",
+                    "parts (1) arithmetic kernels and (2) single operations with symbolic arguments on the FRESH heap are solver verdicts over all values; part (3) executes LISTED concrete histories with a symbolic fill byte / probe index and is bounded execution of those histories only"],
+                outside=["every heap state other than the fresh one as the start of a symbolic operation (two symbolic-size operations in a row exceed 15-20 min / 30-40 GB: not attempted)",
+                         "histories not in the template list; tree-bin shapes beyond those the templates build; multi-threaded use through the global allocator; reallocation of large (mmapped) blocks"]),
+    "C14": dict(assumptions=COMMON + KERNEL_ASSUMPTIONS + [
+                    "model file system inside the kernel hook: (a) the set of existing component prefixes of the requested path, mkdir answers EEXIST / ENOENT (parent missing) / 0 as Linux does and flags any mkdir of a string that is not a component prefix; (b) source/destination lengths and a 'destination prefix equals source' counter, copy_file_range moves any 1..=remaining bytes; (d) getdents64 fills the caller's window with linux_dirent64 records",
+                    "path shapes for create_dir_all are a concrete table (listed in the obligations); the solver's quantifier is the prior state of the tree",
+                    "OpenOptions oracle: the std::fs::OpenOptions semantics table"],
+                outside=["remove_dir_all on real trees, symlinks and fifos; paths across the 512-byte stack buffer; fan-out in the thousands; std::fs as independent observer",
+                         "fs::read / read_to_string (read_to_end not encodable, see C15)", "copy_file_range's offset arguments are modelled as values (rusl passes the offset where the kernel expects a pointer: with a short first copy the real kernel answers EFAULT - File::copy then fails rather than corrupts; recorded as an observation in DESIGN.md)"]),
     "C18": dict(assumptions=COMMON + KERNEL_ASSUMPTIONS + [
                     "entry encoding oracle: a table transcribed from io_uring_enter(2) and liburing's io_uring_prep_* (which field of the 64-byte entry carries which argument of the equivalent system call)",
                     "set-up: the kernel stand-in fills io_uring_params (entries 1|2|4, SINGLE_MMAP on/off, ring offsets) and the ring headers (ring_mask, ring_entries) and serves mmap from static arenas with exact (addr,len) bookkeeping"],
